@@ -4,9 +4,9 @@ CONSTANTS
   Reps = {"v", "a"}
   Clients = {"c1", "c2"}
   NSeg = 2
-  Extra = 1
+  Extra = 0
   First = 5
   Scripts <- Scripts2x31
   ErrSets <- OneErr
-  StepGuard = FALSE
-INVARIANTS InitFirst Consecutive StepLower StepUpper DeleteStops Delivered StuckOnlyAfterStop
+  StepGuard = TRUE
+INVARIANTS InitFirst Consecutive StepLower StepUpper DeleteStops Delivered StuckOnlyAfterStop DurationCount DurationLmsg
